@@ -117,7 +117,7 @@ class Scenario:
 
 
 OPS = ["popleft", "append", "call_pos0", "call_pos1", "remove_mid", "find_remove", "find", "insert_pos",
-       "reschedule", "iterate", "iterate_partial"]
+       "insert_far", "reschedule", "iterate", "iterate_partial"]
 
 
 def do_op(sc: Scenario, op):
@@ -148,6 +148,12 @@ def do_op(sc: Scenario, op):
     if op == "insert_pos":
         h = sl.queue_find(lambda x: x is mid, remove=True)
         sl.queue_insert_pos(h, 0)
+        return "ok"
+    if op == "insert_far":
+        # a position beyond the end of the queue (sleep_insert(n) on a short queue): on the priority
+        # loop the insertion pops until the queue is empty
+        h = sl.queue_find(lambda x: x is mid, remove=True)
+        sl.queue_insert_pos(h, len(hs) + 3)
         return "ok"
     if op == "reschedule":
         if sc.kind != "prio":
@@ -310,6 +316,13 @@ def reference_orders(res, pris):
             else:
                 lst.remove(mid)
                 lst.insert(0, mid)
+        elif op == "insert_far":
+            if kind == "prio":
+                m.remove_obj(mid)
+                m.insert(n + 3, mid)          # everything in front of it becomes positional
+            else:
+                lst.remove(mid)
+                lst.insert(n + 3, mid)
         elif op == "reschedule" and kind == "prio":
             m.reschedule(mid, -5.0)
         if not foreign_first:
